@@ -91,6 +91,9 @@ ViewLight == <<prune, IF prune THEN db ELSE {}, root, rc, contents, root2, conte
 \* fault runs: the database matters (what is readable), the ghost history does not
 ViewFaults == <<prune, db, root, rc, contents, root2, contents2,
                 bopen, cache, corder, broot, brc, bcontents, bops, lost>>
+\* ... and what the previous call was and how it ended (a batch aborted after one of its
+\* operations hit a missing node is then replayed behind exactly that history)
+ViewFaultsLast == <<ViewFaults, last>>
 ViewHist == <<prune, db, root, rc, contents, bopen, cache, corder, broot, brc, bcontents, bops, hist>>
 ViewFull == <<prune, db, root, rc, contents, root2, contents2,
               bopen, cache, corder, broot, brc, bcontents, bops, lost, past>>
